@@ -178,7 +178,7 @@ func c14Check(env *core.Env, cc core.Case) core.Verdict {
 			f := &c.Files[j]
 			want := f.render(ver, c.Years[i], true)
 			got, _ := sut.Read(root, f.Path)
-			if got != want {
+			if !sameLines(got, want) {
 				return core.Viol("stale-or-damaged:"+firstDiffKind(f, got, ver, c.Years[i]), "after the sequence %v (start %s) step %d, %s is not what the statement requires\n%s", c.Versions[:i+1], c.V0, i+1, f.Path, firstDiff(got, want))
 			}
 		}
